@@ -1208,7 +1208,7 @@ def extra_checks(c, rebound, clib, d, syss, ref):
     sd = bysys["two_planets"]
     N = len(sd["bodies"])
     pairs = [("whfast", "saba"), ("saba", "eos"), ("eos", "leapfrog"), ("leapfrog", "whfast"), ("mercurius", "whfast"), ("whfast", "mercurius"),
-             ("trace", "whfast"), ("whfast", "ias15"), ("ias15", "whfast"), ("janus", "leapfrog"), ("bs", "saba"), ("whfast", "trace")]
+             ("trace", "whfast"), ("trace", "leapfrog"), ("trace", "ias15"), ("whfast", "ias15"), ("ias15", "whfast"), ("janus", "leapfrog"), ("bs", "saba"), ("whfast", "trace")]
     for a_, b_ in pairs:
         for reset in (0, 1):
             for safe in (1, 0):
